@@ -1934,6 +1934,17 @@ func (ss *ServerSession) handle(ctx context.Context, req *jsonrpc.Request) (any,
 				Message: fmt.Sprintf("%q is not supported in the new protocol", req.Method),
 			}
 		}
+		// Only the lifecycle methods may be served before initialization; the
+		// other methods listed in this case are here to be rejected under the
+		// new protocol, and are gated like any other feature method.
+		switch req.Method {
+		case methodInitialize, methodPing, notificationInitialized:
+		default:
+			if !initialized {
+				ss.server.opts.Logger.Error("method invalid during initialization", "method", req.Method)
+				return nil, fmt.Errorf("method %q is invalid during session initialization", req.Method)
+			}
+		}
 	case methodDiscover:
 		// In case of methodDiscover call the state.initializeParams is populated
 		// within the discover handle function to make sure the method is supported
